@@ -1,2 +1,178 @@
-/- driver stub for C03: replaced when the model exists -/
-def main : IO Unit := pure ()
+/- driver for C03: the schema-driven codec (Model.Codec over Gen.Schemas.env,
+   or over an environment sent by the harness with `setenv`) -/
+import BacVerif.Drv.Tag
+import BacVerif.Model.Codec
+import BacVerif.Model.SchemaWF
+import BacVerif.Gen.Schemas
+open Lean BacVerif BacVerif.Drv BacVerif.Schema BacVerif.Codec
+
+partial def jVal : Val → Json
+  | .prim lvt d => Json.mkObj [("p", Json.arr #[Json.num lvt, jHex d])]
+  | .atom a lvt d => Json.mkObj [("a", Json.arr #[Json.num a, Json.num lvt, jHex d])]
+  | .tags ts => Json.mkObj [("tags", jTags ts)]
+  | .seq fs => Json.mkObj [("seq", Json.arr (fs.map fun
+      | none => Json.null
+      | some v => jVal v).toArray)]
+  | .choice i v => Json.mkObj [("ch", Json.arr #[Json.num i, jVal v])]
+  | .list vs => Json.mkObj [("list", Json.arr (vs.map jVal).toArray)]
+
+def hexOf (j : Json) : R Bytes := do
+  match ofHex? (← j.getStr?) with
+  | some b => pure b
+  | none => throw "bad hex"
+
+partial def valOfJson (j : Json) : R Val := do
+  if let .ok p := j.getObjVal? "p" then
+    let a ← p.getArr?
+    if a.size ≠ 2 then throw "p: need 2 items"
+    return .prim (← a[0]!.getNat?) (← hexOf a[1]!)
+  if let .ok p := j.getObjVal? "a" then
+    let a ← p.getArr?
+    if a.size ≠ 3 then throw "a: need 3 items"
+    return .atom (← a[0]!.getNat?) (← a[1]!.getNat?) (← hexOf a[2]!)
+  if let .ok p := j.getObjVal? "tags" then
+    return .tags (← tagsOfJson p)
+  if let .ok p := j.getObjVal? "seq" then
+    let a ← p.getArr?
+    let fs ← a.toList.mapM fun x => match x with
+      | Json.null => pure none
+      | x => do pure (some (← valOfJson x))
+    return .seq fs
+  if let .ok p := j.getObjVal? "ch" then
+    let a ← p.getArr?
+    if a.size ≠ 2 then throw "ch: need 2 items"
+    return .choice (← a[0]!.getNat?) (← valOfJson a[1]!)
+  if let .ok p := j.getObjVal? "list" then
+    let a ← p.getArr?
+    return .list (← a.toList.mapM valOfJson)
+  throw "bad value tree"
+
+/-! schema (de)serialisation: the harness checks that the compiled environment
+    is the one the live classes describe, and may send synthetic environments -/
+
+def jOptNat : Option Nat → Json
+  | none => Json.null
+  | some n => Json.num n
+
+def jRef : Ref → Json
+  | .prim a => Json.mkObj [("k", "prim"), ("app", Json.num a)]
+  | .anyAtomic => Json.mkObj [("k", "anyAtomic")]
+  | .ty i => Json.mkObj [("k", "ty"), ("i", Json.num i)]
+
+def jField (f : Field) : Json :=
+  Json.mkObj [("ref", jRef f.ref), ("ctx", jOptNat f.ctx), ("opt", Json.bool f.opt)]
+
+def jListKind : ListKind → String
+  | .seqof => "seqof" | .listof => "listof" | .arrayof => "arrayof"
+
+def jTyDef : TyDef → Json
+  | .seq fs => Json.mkObj [("k", "seq"), ("fields", Json.arr (fs.map jField).toArray)]
+  | .choice fs => Json.mkObj [("k", "choice"), ("fields", Json.arr (fs.map jField).toArray)]
+  | .list k e n => Json.mkObj [("k", "list"), ("lk", jListKind k), ("elem", jRef e), ("fixed", jOptNat n)]
+  | .any => Json.mkObj [("k", "any")]
+  | .nameValue dt => Json.mkObj [("k", "nameValue"), ("dt", Json.num dt)]
+
+def optNatOfJson (j : Json) : R (Option Nat) :=
+  match j with
+  | Json.null => pure none
+  | j => do pure (some (← j.getNat?))
+
+def refOfJson (j : Json) : R Ref := do
+  match ← fldStr j "k" with
+  | "prim" => pure (.prim (← fldNat j "app"))
+  | "anyAtomic" => pure .anyAtomic
+  | "ty" => pure (.ty (← fldNat j "i"))
+  | k => throw s!"bad ref kind {k}"
+
+def fieldOfJson (j : Json) : R Field := do
+  pure { ref := ← refOfJson (← fld j "ref"), ctx := ← optNatOfJson (← fld j "ctx"),
+         opt := ← fldBool j "opt" }
+
+def tyDefOfJson (j : Json) : R TyDef := do
+  match ← fldStr j "k" with
+  | "seq" => pure (.seq (← (← fldArr j "fields").toList.mapM fieldOfJson))
+  | "choice" => pure (.choice (← (← fldArr j "fields").toList.mapM fieldOfJson))
+  | "list" =>
+      let lk ← match ← fldStr j "lk" with
+        | "seqof" => pure ListKind.seqof | "listof" => pure ListKind.listof
+        | "arrayof" => pure ListKind.arrayof | s => throw s!"bad list kind {s}"
+      pure (.list lk (← refOfJson (← fld j "elem")) (← optNatOfJson (← fld j "fixed")))
+  | "any" => pure .any
+  | "nameValue" => pure (.nameValue (← fldNat j "dt"))
+  | k => throw s!"bad type kind {k}"
+
+def jNats (l : List Nat) : Json := Json.arr (l.map fun (i : Nat) => Json.num i).toArray
+
+def jReg (r : List (Nat × Nat)) : Json :=
+  Json.arr (r.map fun (c, i) => Json.arr #[Json.num c, Json.num i]).toArray
+
+def regOf (kind : String) : R (List (Nat × Nat)) :=
+  match kind with
+  | "confirmed" => pure Gen.Schemas.confirmed
+  | "complexAck" => pure Gen.Schemas.complexAck
+  | "unconfirmed" => pure Gen.Schemas.unconfirmed
+  | "error" => pure Gen.Schemas.error
+  | k => throw s!"bad registry {k}"
+
+def decodeReply (env : Env) (τ : Nat) (pdu : Bool) (tags : List Tag) : Json :=
+  let reenc (v : Val) : Json :=
+    match encodeTy env τ v with
+    | .ok ts => Json.mkObj [("tags", jTags ts), ("hex", jHex (serializeTags ts))]
+    | .error e => Json.mkObj [("err", e.name)]
+  if pdu then
+    match decodePdu env τ tags with
+    | .error e => jErr e
+    | .ok v => jOk [("v", jVal v), ("rest", jTags []), ("re", reenc v)]
+  else
+    match decodeTy env τ tags with
+    | .error e => jErr e
+    | .ok (v, r) => jOk [("v", jVal v), ("rest", jTags r), ("re", reenc v)]
+
+def handle (env : Env) (j : Json) : R (Env × Json) := do
+  match ← fldStr j "op" with
+  | "enc" =>       -- value.encode(taglist); TagList.encode
+      let τ ← fldNat j "t"
+      let v ← valOfJson (← fld j "v")
+      match encodeTy env τ v with
+      | .error e => pure (env, jErr e)
+      | .ok ts => pure (env, jOk [("tags", jTags ts), ("hex", jHex (serializeTags ts))])
+  | "dec" =>       -- klass().decode(taglist)  (pdu: APCISequence.decode's trailing-tag rejection)
+      let τ ← fldNat j "t"
+      let tags ← tagsOfJson (← fld j "tags")
+      let pdu := match fldBool j "pdu" with | .ok b => b | .error _ => false
+      pure (env, decodeReply env τ pdu tags)
+  | "dechex" =>    -- TagList.decode of the octets, then as `dec`
+      let τ ← fldNat j "t"
+      let bs ← fldHex j "hex"
+      let pdu := match fldBool j "pdu" with | .ok b => b | .error _ => false
+      match parseTags bs with
+      | .error e => pure (env, jErr e)
+      | .ok tags => pure (env, decodeReply env τ pdu tags)
+  | "service" =>   -- registry lookup, then decode as PDU
+      let reg ← regOf (← fldStr j "kind")
+      let bs ← fldHex j "hex"
+      match lookup reg (← fldNat j "choice") with
+      | none => pure (env, jOk [("t", Json.null)])
+      | some τ =>
+        match parseTags bs with
+        | .error e => pure (env, jErr e)
+        | .ok tags =>
+          let r := decodeReply Gen.Schemas.env τ true tags
+          pure (env, r.setObjVal! "t" (Json.num τ))
+  | "schema" =>    -- the compiled environment and registries
+      pure (env, jOk [("types", Json.arr (Gen.Schemas.env.map jTyDef)),
+                      ("confirmed", jReg Gen.Schemas.confirmed), ("complexAck", jReg Gen.Schemas.complexAck),
+                      ("unconfirmed", jReg Gen.Schemas.unconfirmed), ("error", jReg Gen.Schemas.error)])
+  | "setenv" =>    -- switch to a synthetic environment (or back with "env": null)
+      match fldOpt j "env" with
+      | none => pure (Gen.Schemas.env, jOk [("n", Json.num Gen.Schemas.env.size)])
+      | some e =>
+        let ds ← (← e.getArr?).toList.mapM tyDefOfJson
+        pure (ds.toArray, jOk [("n", Json.num ds.length)])
+  | "wf" =>        -- the decidable predicates of Props.C03 evaluated on the current environment
+      pure (env, jOk [("wf", Json.bool (SchemaWF.wfEnv env)),
+                      ("proved", jNats (SchemaWF.provedTypes env)),
+                      ("bad", jNats (SchemaWF.badTypes env))])
+  | op => throw s!"unknown op {op}"
+
+def main : IO Unit := loopS Gen.Schemas.env handle
